@@ -30,6 +30,37 @@ static ssize_t failing_read(void *c, char *buf, size_t size)
   memcpy(buf, k->data + k->pos, n); k->pos += n;
   return (ssize_t)n;
 }
+/* ---- two threads whose libconfig calls overlap in time (locoverlap): thread A is parked inside its include function
+ * in the middle of a read while thread B reads and writes floats on its own configuration, under a comma locale ---- */
+#include <pthread.h>
+static pthread_mutex_t ov_mu = PTHREAD_MUTEX_INITIALIZER; static pthread_cond_t ov_cv = PTHREAD_COND_INITIALIZER;
+static int ov_a_inside, ov_b_done; static locale_t ov_comma; static int ov_thread_locale;
+static char ov_b_text[256]; static double ov_b_a, ov_b_b; static int ov_b_ok, ov_b_locale_kept;
+static const char **ov_include(config_t *c, const char *dir, const char *path, const char **error)
+{
+  const char **l;
+  (void)c; (void)dir; (void)path; *error = NULL;
+  pthread_mutex_lock(&ov_mu); ov_a_inside = 1; pthread_cond_broadcast(&ov_cv);
+  while (!ov_b_done) pthread_cond_wait(&ov_cv, &ov_mu);
+  pthread_mutex_unlock(&ov_mu);
+  l = malloc(sizeof *l); l[0] = NULL; return l;          /* expands to no file */
+}
+static void *ov_worker(void *arg)
+{
+  config_t b; char *m = NULL; size_t ml = 0; FILE *f; locale_t before;
+  (void)arg;
+  if (ov_thread_locale) uselocale(ov_comma);
+  before = uselocale((locale_t)0);
+  pthread_mutex_lock(&ov_mu); while (!ov_a_inside) pthread_cond_wait(&ov_cv, &ov_mu); pthread_mutex_unlock(&ov_mu);
+  config_init(&b);
+  ov_b_ok = config_read_string(&b, "a = 1.5; b = 2.25;");
+  ov_b_a = ov_b_b = -1; config_lookup_float(&b, "a", &ov_b_a); config_lookup_float(&b, "b", &ov_b_b);
+  f = open_memstream(&m, &ml); config_write(&b, f); fclose(f);
+  snprintf(ov_b_text, sizeof ov_b_text, "%s", m ? m : ""); free(m); config_destroy(&b);
+  ov_b_locale_kept = uselocale((locale_t)0) == before;
+  pthread_mutex_lock(&ov_mu); ov_b_done = 1; pthread_cond_broadcast(&ov_cv); pthread_mutex_unlock(&ov_mu);
+  return NULL;
+}
 static int radix(void) { char b[16]; snprintf(b, sizeof b, "%.1f", 1.5); return (unsigned char)b[1]; }
 
 int main(int argc, char **argv)
@@ -79,6 +110,23 @@ int main(int argc, char **argv)
       printf(" %d %d %d %d %d %d\n", ok2, same, tp, gp, rb, ra);
       free(m1); free(m2); free(text); config_destroy(&cfg); config_destroy(&cfg2);
       uselocale(LC_GLOBAL_LOCALE); setlocale(LC_ALL, "C");
+    } else if (nw == 3 && !strcmp(w[0], "locoverlap")) {
+      /* locoverlap <global comma 0|1> <thread comma 0|1>: out "<A ok> <A value x1000> <B ok> <B a x1000> <B b x1000> <B text hex> <locales kept>" */
+      int g = atoi(w[1]); pthread_t th; config_t a; double av = -1; int aok, kept; locale_t before; size_t i;
+      if (!setlocale(LC_ALL, g ? "xx_XX.utf8" : "C")) { printf("setlocale-failed\n"); fflush(stdout); continue; }
+      ov_comma = comma; ov_thread_locale = atoi(w[2]); ov_a_inside = ov_b_done = 0;
+      if (ov_thread_locale) uselocale(comma);
+      before = uselocale((locale_t)0);
+      pthread_create(&th, NULL, ov_worker, NULL);
+      config_init(&a); config_set_include_func(&a, ov_include);
+      aok = config_read_string(&a, "x = 0.5;\n@include \"park\"\ny = 7.75;\n");
+      config_lookup_float(&a, "y", &av);
+      pthread_join(th, NULL);
+      kept = (uselocale((locale_t)0) == before) && ov_b_locale_kept;
+      printf("%d %ld %d %ld %ld ", aok, (long)(av * 1000), ov_b_ok, (long)(ov_b_a * 1000), (long)(ov_b_b * 1000));
+      for (i = 0; ov_b_text[i]; i++) printf("%02x", (unsigned char)ov_b_text[i]);
+      printf(" %d\n", kept);
+      config_destroy(&a); uselocale(LC_GLOBAL_LOCALE); setlocale(LC_ALL, "C");
     } else printf("bad-op\n");
     fflush(stdout);
   }
